@@ -14,6 +14,9 @@ def build(tier):
     # output directory nested in the input tree next to siblings whose names start with its name (docs / docs-old), every output placement
     obs.append(trees.tree_ob('C13', 'S5', 'tree', dict(sep2=False, ext_t=False, ext_m=False, has_prefix=False, excl_root=False, recursive=True, auto_ex=False), fixrev=True, fixexcl=quick,
                              timeout=400 if quick else 2400, note=' (all output placements)'))
+    # the input path is a symbolic link to the tree (pages, indexes and what the matcher is asked about are named after the path as given)
+    obs.append(trees.tree_ob("C13", "S4", "link", dict(base, recursive=True, auto_ex=True), fixrev=True, timeout=400 if quick else 2400,
+                             note=" (input path is a symbolic link to the tree)"))
     # sizes beyond the small skeletons, at no path cost (no exclusions, listing order as written): deep chains, wide directories
     for sk in (('CH12', 'W20') if quick else ('CH12', 'CH30', 'W20', 'W60')):
         obs.append(trees.tree_ob('C13', sk, 'tree', dict(base, recursive=True, excl_root=False), fixrev=True, fixexcl=True, timeout=400 if quick else 2400, note=' (large tree)'))
